@@ -14,6 +14,12 @@ accessor for one class on any diagram — source or derived view, in any order. 
 per-class accessors (`get_out_edges`, `get_outgoing_relations`, `get_associations_with_condition`,
 `get_outgoing/incoming_neighbors_with_relation_type`) are read for every class, original first or derived views
 first (`(final b)`), and must report exactly that diagram's own graph (`R[...]` lists the ones that do not).
+`(read d)` operations read EVERY public read accessor of diagram d — found by introspection over `ClassDiagram`
+(properties, cached properties, query methods with up to two arguments from small domains: `parent_map`,
+`all_ancestors(i)`, `get_assoc_keys_by_source(flag)`, …; anything added later is read too) — and compare the read-out
+with the previous read-out of the same diagram and with the *pristine* read-out (each accessor read alone on a freshly
+built equivalent diagram that went through the same derivations and nothing else): every accessor is a pure function of
+the diagram, so all three must agree; every diagram that was read is read once more after the run.
 Generic bases (`(generic …)`, `(gsub …)`): `class C0(Generic[T])`, `class C1(C0[int])`, `class C2(C0[T])`, plain
 subclasses of those; the model sees `__bases__` only. Twin diagrams (`(twin t)`, 2-module layout): in the same process
 further diagrams are built from the same m0 class objects and same-named m1 classes of a copy of m1 — every diagram
@@ -50,6 +56,7 @@ THEOREMS = [
     "KrroodVerif.CD.C17_views_partial",
     "KrroodVerif.CD.C17_cex_subdiagram",
     "KrroodVerif.CD.C17_accessors",
+    "KrroodVerif.CD.C17_accessors_pure",
 ]
 MODEL_FUNCTION = ("CD.flags / CD.endpoint / CD.build / CD.derive / CD.stepOp / CD.reported (Model/ClassDiagram.lean) = "
                   "wrapped_field.py predicates, ClassDiagram.__post_init__, to_subdiagram_without_inherited_associations")
@@ -174,6 +181,8 @@ class Prog:
                 ops.append(f"(q {op[1]} {op[2]})")
             elif op[0] == "acc":
                 ops.append(f"(acc {op[1]} {op[2]} {op[3]})")
+            elif op[0] == "read":
+                ops.append(f"(read {op[1]})")
             elif op[0] == "copy":
                 ops.append(f"(copy {op[1]})")
             else:
@@ -202,6 +211,8 @@ class Prog:
                 ops.append(("q", int(o[1]), int(o[2])))
             elif o[0] == "acc":
                 ops.append(("acc", int(o[1]), int(o[2]), int(o[3])))
+            elif o[0] == "read":
+                ops.append(("read", int(o[1])))
             elif o[0] == "copy":
                 ops.append(("copy", int(o[1])))
             else:
@@ -558,6 +569,148 @@ def _reports(d, i: int) -> List[str]:
     return res + nb
 
 
+# ---- the full accessor read-out: every public read accessor of ClassDiagram, found by introspection
+
+MUTATING_VERBS = ("add", "remove", "clear", "visualize", "to_", "set", "update", "delete", "del_", "pop", "insert",
+                  "discard", "reset", "build", "create", "register", "load", "save", "write")
+"""public methods whose name starts with one of these are operations, not read accessors (`to_…` derives a new diagram)"""
+
+_ACCESSORS: Dict[int, list] = {}
+_ACCESSOR_NAMES: set = set()  # what introspection found in this process (printed into the evidence)
+
+
+def _accessors(cls) -> list:
+    """[(name, kind, [parameter kinds])]: properties, cached properties and public query methods with at most two
+    parameters whose argument domain is known (a class of the diagram, a node index, a flag, a relation type, a
+    predicate). Found by introspection, so an accessor added to ClassDiagram tomorrow is read as well."""
+    import inspect
+    from functools import cached_property
+    got = _ACCESSORS.get(id(cls))
+    if got is not None:
+        return got
+    out = []
+    for name in sorted(dir(cls)):
+        if name.startswith("_"):
+            continue
+        attr = inspect.getattr_static(cls, name)
+        if isinstance(attr, (property, cached_property)):
+            out.append((name, "prop", []))
+            continue
+        if isinstance(attr, (staticmethod, classmethod)) or not callable(attr):
+            continue
+        if name.startswith(MUTATING_VERBS):
+            continue
+        try:
+            params = list(inspect.signature(attr).parameters.values())[1:]
+        except (TypeError, ValueError):
+            continue
+        kinds = []
+        for prm in params:
+            ann = str(prm.annotation)
+            pn = prm.name.lower()
+            if prm.kind in (prm.VAR_POSITIONAL, prm.VAR_KEYWORD):
+                continue
+            if "relation" in pn or "ClassRelation" in ann:
+                k = "reltype"
+            elif "Callable" in ann or pn in ("condition", "predicate", "filter"):
+                k = "pred"
+            elif ann in ("bool", "<class 'bool'>") or isinstance(prm.default, bool):
+                k = "flag"
+            elif ann in ("int", "<class 'int'>") or "idx" in pn or "index" in pn:
+                k = "index"
+            elif "WrappedClass" in ann or "Type" in ann or pn in ("cls", "clazz", "cls1", "cls2", "class_", "klass"):
+                k = "class"
+            elif prm.default is not prm.empty:
+                k = "default"
+            else:
+                k = None
+            kinds.append(k)
+        if None in kinds or len([k for k in kinds if k != "default"]) > 2:
+            continue
+        out.append((name, "method", [k for k in kinds if k != "default"]))
+    _ACCESSORS[id(cls)] = out
+    _ACCESSOR_NAMES.update(a[0] for a in out)
+    return out
+
+
+def _canon(v, depth=0) -> str:
+    """canonical text of an accessor's value: names instead of objects, sets and dicts sorted"""
+    import types
+    from krrood.class_diagrams.class_diagram import ClassRelation, WrappedClass, ClassDiagram
+    from krrood.class_diagrams.wrapped_field import WrappedField
+    if depth > 6:
+        return "…"
+    if v is None or isinstance(v, (bool, int, str, float)):
+        return repr(v)
+    if isinstance(v, WrappedClass):
+        return f"W({v.clazz.__name__})"
+    if isinstance(v, ClassRelation):
+        return type(v).__name__ + ":" + _rel_str(v)
+    if isinstance(v, WrappedField):
+        return f"{v.clazz.clazz.__name__}.{v.field.name}"
+    if isinstance(v, ClassDiagram):
+        return "<diagram>"
+    if isinstance(v, type):
+        return v.__name__
+    if isinstance(v, dict):
+        return "{" + ",".join(sorted(_canon(k, depth + 1) + ":" + _canon(x, depth + 1) for k, x in v.items())) + "}"
+    if isinstance(v, (set, frozenset)):
+        return "{" + ",".join(sorted(_canon(x, depth + 1) for x in v)) + "}"
+    if isinstance(v, (list, tuple)):
+        return "[" + ",".join(_canon(x, depth + 1) for x in v) + "]"
+    if isinstance(v, types.GeneratorType) or hasattr(v, "__next__"):
+        return "[" + ",".join(_canon(x, depth + 1) for x in v) + "]"
+    return "<" + type(v).__name__ + ">"
+
+
+def _readout(d, only: Optional[str] = None, reverse: bool = False) -> Dict[str, str]:
+    """the value of every read accessor of diagram `d` (or of the one named `only`), for every argument of its (small)
+    domain; accessors are read in alphabetical order, or in the reverse order"""
+    from krrood.class_diagrams.class_diagram import Association, Inheritance, ClassRelation
+    ws = list(d.wrapped_classes)
+    dom = {
+        "class": [(w.clazz.__name__, w) for w in ws],
+        "index": [(str(w.index), w.index) for w in ws],
+        "flag": [("F", False), ("T", True)],
+        "reltype": [("Association", Association), ("Inheritance", Inheritance), ("ClassRelation", ClassRelation)],
+        "pred": [("any", lambda a: True)],
+    }
+    out: Dict[str, str] = {}
+    accs = [a for a in _accessors(type(d)) if only is None or a[0] == only]
+    if reverse:
+        accs = accs[::-1]
+    for name, kind, kinds in accs:
+        if kind == "prop":
+            try:
+                out[name] = _canon(getattr(d, name))
+            except Exception as e:  # noqa: BLE001
+                out[name] = "<" + type(e).__name__ + ">"
+            continue
+        for combo in itertools.product(*[dom[k] for k in kinds]):
+            key = name + "(" + ",".join(c[0] for c in combo) + ")"
+            try:
+                out[key] = _canon(getattr(d, name)(*[c[1] for c in combo]))
+            except Exception as e:  # noqa: BLE001
+                out[key] = "<" + type(e).__name__ + ">"
+    return out
+
+
+def _pristine_readout(make) -> Dict[str, str]:
+    """Ground truth of a read-out that owes nothing to the code's own bookkeeping: for each accessor a *pristine*
+    equivalent diagram is made (`make()`: same classes, same derivation path, nothing else ever called on it) and only
+    that accessor is read. Every accessor being a pure function of the diagram, this is what any read must return."""
+    out: Dict[str, str] = {}
+    probe = make()
+    for name, _, _ in _accessors(type(probe)):
+        out.update(_readout(make(), only=name))
+    return out
+
+
+def _readout_diff(old: Dict[str, str], new: Dict[str, str]) -> str:
+    ks = [k for k in sorted(set(old) | set(new)) if old.get(k) != new.get(k)]
+    return ",".join(f"{k}:{old.get(k)}->{new.get(k)}" for k in ks[:4])[:400]
+
+
 def _apply(diagrams: list, op: tuple, scratch: str) -> None:
     import copy as _copy
     kind = op[0]
@@ -637,6 +790,33 @@ def _observe(p: Prog, root: str) -> str:
             return "ORDER-DEPENDENT given=" + static + " reversed=" + static_rev
         diagrams = [d]
         chs = []
+        seen: Dict[int, Dict[str, str]] = {}  # the last full read-out of each diagram that was read
+        truth: Dict[int, Dict[str, str]] = {}  # its pristine read-out
+        path: List[list] = [[]]  # how each diagram was derived from a freshly built one
+
+        def pristine(i: int):
+            import copy as _copy
+            x = ClassDiagram(list(classes))
+            for st in path[i]:
+                x = _copy.copy(x) if st[0] == "copy" else x.to_subdiagram_without_inherited_associations(st[1])
+            return x
+
+        def read(i: int) -> List[str]:
+            """full read-out of diagram i, forwards and backwards, against the pristine one and the previous one"""
+            if i not in truth:
+                truth[i] = _pristine_readout(lambda: pristine(i))
+            msgs = []
+            for rev in (False, True):
+                ro = _readout(diagrams[i], reverse=rev)
+                if ro != truth[i]:
+                    msgs.append(f"d{i}:readout-differs-from-pristine " + _readout_diff(truth[i], ro))
+                    break
+                if i in seen and seen[i] != ro:
+                    msgs.append(f"d{i}:readout-changed " + _readout_diff(seen[i], ro))
+                    break
+                seen[i] = ro
+            seen.setdefault(i, ro)
+            return msgs
         for op in p.ops:
             before = [_snapshot(x) for x in diagrams]
             _apply(diagrams, op, pdir)
@@ -645,6 +825,10 @@ def _observe(p: Prog, root: str) -> str:
                 a = _snapshot(diagrams[i])
                 if a != b:
                     ch.append(f"d{i}={a}")
+            if op[0] in ("copy", "sub") and len(diagrams) > len(path):
+                path.append(path[op[1]] + [("copy",) if op[0] == "copy" else ("sub", op[2])])
+            if op[0] == "read" and op[1] < len(diagrams):
+                ch.extend(read(op[1]))
             chs.append(";".join(ch))
         # after the run: what every diagram's accessors report, read original-first or derived-views-first
         idx = list(range(len(diagrams)))
@@ -652,6 +836,9 @@ def _observe(p: Prog, root: str) -> str:
             idx.reverse()
         rep = {i: _reports(diagrams[i], i) for i in idx}
         reports = [r for i in sorted(rep) for r in rep[i]]
+        # ... and every diagram that was read before is read once more: no accessor may have changed its value
+        for i in sorted(seen):
+            reports.extend(read(i))
         return static + " V[" + "|".join(chs) + "] R[" + ";".join(reports) + "]"
     finally:
         _cleanup_modules(pkg)
@@ -961,6 +1148,19 @@ def gen_prog(rng, tags: set) -> Prog:
         else:
             p.ops.append(("copy", d))
             nd += 1
+    if p.ops and rng.random() < 0.6:
+        # full accessor read-outs around the operations: (read, op, read, …) — every diagram that exists at that point
+        ops, nd = [], 1
+        if rng.random() < 0.8:
+            ops.append(("read", 0))
+        for op in p.ops:
+            ops.append(op)
+            if op[0] in ("sub", "copy"):
+                nd += 1
+            if rng.random() < 0.6:
+                ops.append(("read", rng.randrange(nd)))
+        p.ops = ops
+        tags.add("readouts")
     p.final = rng.randrange(2)
     if rng.random() < 0.3:
         # generic bases: some roots become `Generic[T]`; classes below a generic class write a type argument or not
@@ -1170,6 +1370,57 @@ def _exhaustive_generic(tier: str) -> List[Case]:
     return cases
 
 
+def _exhaustive_deep(tier: str) -> List[Case]:
+    """family (f): inheritance chains three and four deep inside the diagram, with full accessor read-outs before and
+    after every kind of read-only operation (read, derive, read; read, query, read; …)"""
+    cases = []
+    T = 5
+    shapes = {
+        "chain5": {0: [], 1: [0], 2: [1], 3: [2], 4: [3]},
+        "chain4+leaf": {0: [], 1: [0], 2: [1], 3: [2], 4: [1]},
+        "two-chains": {0: [], 1: [0], 2: [1], 3: [], 4: [3, 2]},
+    }
+    fieldsets = {
+        "root-ref": {0: [("cls", T)]},
+        "root+leaf": {0: [("cls", T)], 4: [("opt", "typing", ("cls", T))], 2: [("cont", "list", ("cls", 0))]},
+        "none": {},
+    }
+    opseqs = [
+        [("read", 0), ("sub", 0, False), ("read", 0)],
+        [("read", 0), ("sub", 0, True), ("read", 0), ("read", 1)],
+        [("read", 0), ("q", 0, 2), ("read", 0)],
+        [("read", 0), ("q", 0, 0), ("q", 0, 1), ("q", 0, 3), ("read", 0)],
+        [("read", 0), ("read", 0)],
+        [("read", 0), ("acc", 0, 4, 4), ("acc", 0, 4, 0), ("read", 0)],
+        [("read", 0), ("render", 0, True), ("read", 0)],
+        [("read", 0), ("copy", 0), ("sub", 1, False), ("read", 1), ("read", 0), ("read", 2)],
+        [("sub", 0, False), ("read", 1), ("read", 0), ("sub", 1, True), ("read", 1), ("read", 0)],
+        [("q", 0, 2), ("sub", 0, False), ("q", 1, 2)],   # no explicit read: only the final read-out
+    ]
+    orders = [[0, 1, 2, 3, 4, 5], [5, 4, 3, 2, 1, 0], [1, 2, 3, 4, 5], [0, 2, 3, 4], [3, 1, 5, 0, 2]]
+    for sname, sh in shapes.items():
+        for fname, fs in fieldsets.items():
+            for oi, order in enumerate(orders):
+                for k, ops in enumerate(opseqs):
+                    if fname == "none" and k not in (2, 4):
+                        continue
+                    if tier == "quick" and oi >= 3 and k not in (0, 2):
+                        continue
+                    defs = [(T, [], [(False, 90, ("int",))])]
+                    fidx = 0
+                    for c in range(5):
+                        fl = []
+                        for a in fs.get(c, []):
+                            fl.append((False, fidx, a))
+                            fidx += 1
+                        defs.append((c, list(sh[c]), fl))
+                    for fin in ((0, 1) if k in (0, 7) else (0,)):
+                        p = Prog(defs=defs, order=list(order), ops=list(ops), final=fin)
+                        cases.append(_mk(p, {"exh:deep", "shape:" + sname, "fields:" + fname, "readouts",
+                                             f"ops:{len(ops)}"}, "exhaustive"))
+    return cases
+
+
 def _exhaustive_twins(tier: str) -> List[Case]:
     """family (e): 2-module programs whose m0 classes name m1 classes under TYPE_CHECKING only, built into two or three
     diagrams of one process that share the m0 class objects and supply same-named twins of the m1 classes"""
@@ -1207,6 +1458,7 @@ def generate(rng, tier, n):
     cases += _exhaustive_hier(tier)
     cases += _exhaustive_generic(tier)
     cases += _exhaustive_twins(tier)
+    cases += _exhaustive_deep(tier)
     for _ in range(n):
         tags: set = set()
         p = gen_prog(rng, tags)
@@ -1225,6 +1477,11 @@ def revive(case: Case) -> Case:
 
 
 def extra_coverage() -> Dict[str, Any]:
+    try:  # the accessors are discovered in the worker processes; discover them here too for the evidence
+        from krrood.class_diagrams.class_diagram import ClassDiagram
+        _accessors(ClassDiagram)
+    except Exception:  # noqa: BLE001
+        pass
     return {
         "class_orders_per_case": 2,
         "observed": "wrapped_classes, inheritance_relations, associations (with field names), the seven WrappedField "
@@ -1233,6 +1490,9 @@ def extra_coverage() -> Dict[str, Any]:
         "operations": "q = six bundles of read-only accessors; acc = one accessor for one class on one diagram (source "
                       "or derived view); render = _build_rxnode_tree; copy = copy.copy(diagram); "
                       "sub = to_subdiagram_without_inherited_associations(include_field_name)",
+        "accessor_readout": "`read d`: every public read accessor found by introspection over ClassDiagram ("
+                            + ", ".join(sorted(_ACCESSOR_NAMES)) + "), all arguments of small domains, read forwards and "
+                            "backwards, compared with the previous read-out of d and with the pristine read-out",
         "accessor_reports": "after the run, for every diagram (original first / derived views first): get_out_edges "
                             "(by wrapped class and by class), get_outgoing_relations, get_associations_with_condition, "
                             "get_outgoing/incoming_neighbors_with_relation_type for every class, compared with the "
